@@ -878,10 +878,13 @@ impl World {
 			None => {
 				// this thread's key is gone (a case leaked it, or the tree under
 				// test lost it): build on a fresh thread, which has a fresh key
+				// the world outlives the helper thread: it is placed in the
+				// region of THIS thread
 				let spec = spec.clone();
+				let base = crate::quarantine::my_region();
 				std::thread::spawn(move || {
 					let key = ThreadKey::get().expect("harness bug: a fresh thread has no key");
-					Self::build_with(&spec, key)
+					crate::quarantine::with_bump_at(base, &spec.layout, || Self::build_in_place(&spec, key))
 				})
 				.join()
 				.expect("harness bug: world builder thread panicked")
